@@ -278,10 +278,12 @@ func main() {
 	shards := fs.Int("shards", 16, "number of shard files")
 	witness := fs.String("witness", "", "witness file (confirm)")
 	rev := fs.Bool("rev", false, "use the reversed comparator (C04)")
+	kind := fs.String("kind", "", "structure to drive (C10: stack|mqueue|list|ring)")
 	fs.Parse(os.Args[3:])
 
 	c := &Ctx{Prop: prop, Seed: *seed, Tier: *tier, Counters: map[string]int{}, Extra: map[string]any{}}
 	c.Extra["rev"] = *rev
+	c.Extra["kind"] = *kind
 	switch mode {
 	case "run":
 		if *out == "" {
